@@ -34,4 +34,8 @@ PROPS = {
     "C20": dict(monitor="C20", proj="C20", cfgs=ALL3, quick=900, thorough=12000,
                 gens=[(CONC, "random", 1.0), (GROUPS, "random", 0.5), (CONC + GROUPS, "stuck", 0.6)],
                 assumptions=COMMON_ASSUME),
+    "C04": dict(monitor="C04", proj="FUN", cfgs=ALL3, quick=1500, thorough=20000,
+                gens=[(["join"], "random", 1.0), (["join"], "stuck", 0.3), (["join"], "panic", 0.2),
+                      (["join"], "big", 0.08)],
+                assumptions=COMMON_ASSUME),
 }
